@@ -16,7 +16,16 @@ var singleNames = []string{"enum", "enum-byte", "enum-uint8", "enum-uint16", "en
 // CaseName names schema case i (used in assertion ids, so that a finding is
 // identified by the construct and not by the input).
 func CaseName(i int) string {
-	if i >= 30 && i < nSingles {
+	if i == 40 {
+		return "union-docs-deprecated"
+	}
+	if i == 41 {
+		return "deprecated-first-and-last"
+	}
+	if i == 42 {
+		return "trailing-comments"
+	}
+	if i >= 30 && i < 40 {
 		return "type:" + deepTypes[i-30].name
 	}
 	if i >= nSingles {
@@ -50,7 +59,9 @@ func C11(shard, nshards int) {
 	if err != nil {
 		return
 	}
-	vstub.Assert("c11.file/"+cls, FileEq(got, want, true))
+	// where an end-of-line comment ends up is not pinned down by the property:
+	// that case is compared without comments
+	vstub.Assert("c11.file/"+cls, FileEq(got, want, cls != "trailing-comments"))
 	vstub.Reach("c11")
 }
 
